@@ -56,6 +56,10 @@ func (_ dimensionSetter) UpdateProperties(po tabular.PropertyOwner) error {
 			W: length.StringCells(l),
 		}
 	}
+	if _, ok := cell.Item().(tabular.TerminalCellWidther); ok && len(lines) == 1 {
+		// the item knows better than we do how wide its one line displays
+		linesWidths[0].W = dims.cellWidth
+	}
 
 	po.SetProperty(propDimensions, dims)
 	po.SetProperty(propLinesWidths, linesWidths)
